@@ -13,3 +13,8 @@ from mverif import renames
 inv = renames.build_inventory({m.name: m.tree for m in p.modules.values()})
 json.dump(inv, open("/verif/mverif/known_inventory.json", "w"), indent=0, sort_keys=True)
 print(len(inv["functions"]), "functions,", len(inv["fields"]), "classes in the inventory")
+
+# module-level names of the pinned tree: a module-level constant that is not listed is new, and is read as its value
+globs = sorted(f"{m.name}.{n}" for m in p.modules.values() for n in m.globals_assigned)
+open("/verif/mverif/known_globals.txt", "w").write("# module-level assigned names of the pinned tree\n" + "\n".join(globs) + "\n")
+print(len(globs), "module-level names")
